@@ -2,7 +2,7 @@
    spec is written from the property text: it looks at what the implementation
    answered (observed) and at the ground truth the driver put into the input; it never calls model. *)
 From OIDC Require Import Lib.
-From OIDC Require Export C19_Discovery C19_Tokens.  (* the case files import this module only *)
+From OIDC Require Export C19_Discovery C19_Tokens C19_Conf.  (* the case files import this module only *)
 
 Inductive iss_api := ApiValidate | ApiNewProvider | ApiHostPath | ApiForwardedPath.
 
@@ -28,10 +28,14 @@ Inductive input :=
        carries a signed request object with its own state, nonce, scope and redirect_uri (the other parameters
        placed as p says); code_challenge_method in the query (qm) / in the object (om), relation of the token
        request's verifier to the code_challenge in the query (qc) / in the object (oc), verifier sent or not *)
-| ITokens (r : router) (c : config) (q : request) (k : client_kind) (jwt : bool) (fls : list flow).
+| ITokens (r : router) (c : config) (q : request) (k : client_kind) (jwt : bool) (fls : list flow)
     (* while sending q: fetch the document, then run every flow of fls as a client of kind k
        (registered for everything, credentials sent the way it is registered) whose access tokens are
        JWTs iff jwt, and read the iss claim of every JWT that comes back *)
+| IConf (v : variant) (cf : conf) (id : string).
+    (* round 11: the document built by CreateDiscoveryConfig (V1) / LegacyServer.Discovery -> createDiscoveryConfigV2
+       (V2 es) for a hand-written op.Configuration whose every answer is cf's, under a context whose issuer is
+       k_issuer cf; and the login callback URL AuthCallbackURL builds for request id *)
 
 Inductive observed :=
 | ODoc (ok : bool) (iss : string) (adv : list (option string)) (routed : list bool)
@@ -47,6 +51,7 @@ Inductive observed :=
     (* res: None = no tokens; Some carried = tokens, and whether callback and tokens carry what the OBJECT said
        (state in the callback, nonce in the ID token, scope of the response, redirect target) *)
 | OTokens (ok : bool) (iss : string) (results : list flow_result)
+| OConf (d : ddoc)
 | OPanic.
 
 (* ------------------------------------------------------------------ model *)
@@ -84,6 +89,7 @@ Definition model (i : input) : observed :=
   | IRoFlow r c k p qm om qc oc sent =>
       ORoFlow (doc_pkce c) (doc_reqparam c) (if ro_pkce_issued r c k p qm om qc oc sent then Some true else None)
   | ITokens r c q k jwt fls => OTokens true (doc_issuer r c q) (map (flow_model r c q k jwt) fls)
+  | IConf v cf id => OConf (conf_doc v cf id)
   end.
 
 (* ------------------------------------------------------------------ the property *)
@@ -175,6 +181,58 @@ Definition spec_flow (doc_iss : string) (res : flow_result) : bool :=
   | FRIssued id_iss at_iss => iss_is doc_iss id_iss && iss_is doc_iss at_iss
   end.
 
+(* ---- round 11: the document of an arbitrary Configuration, judged against the configuration's own answers.
+   Only what the property text speaks of: issuer, endpoint URLs, token-endpoint grant types, PKCE methods,
+   request-object support (and the login callback's address). The client-authentication method and signing
+   algorithm lists, locales and logout flags are compared through the model only. *)
+
+(* the address the configuration gives an endpoint, made absolute against the request's issuer *)
+Definition want_ep (iss : string) (e : ep) : string :=
+  match e with
+  | EpNil => EmptyString
+  | EpPath p => absolute iss p
+  | EpURL p u => if is_empty u then absolute iss p else u
+  end.
+
+Fixpoint spec_addr (iss : string) (es : list ep) (adv : list string) : bool :=
+  match es, adv with
+  | [], [] => true
+  | e :: es', a :: adv' => String.eqb a (want_ep iss e) && spec_addr iss es' adv'
+  | _, _ => false
+  end.
+
+(* the eight OIDC / OAuth endpoints exactly; check_session_iframe (the ninth) may be left out *)
+Definition spec_conf_eps (iss : string) (es : list ep) (adv : list string) : bool :=
+  spec_addr iss (firstn 8 es) (firstn 8 adv)
+  && match skipn 8 es, skipn 8 adv with
+     | [e], [a] => is_empty a || String.eqb a (want_ep iss e)
+     | _, _ => false
+     end.
+
+Definition truth_eps (v : variant) (cf : conf) : eps9 := match v with V1 => k_eps cf | V2 es => es end.
+
+(* s is listed iff the flag is on *)
+Definition mem_iff (s : string) (l : list string) (flag : bool) : bool := Bool.eqb (string_in s l) flag.
+Definition only (known l : list string) : bool := forallb (fun s => string_in s known) l.
+Definition known_grants := [s_code; s_implicit; s_refresh; s_cc; s_te; s_bearer; s_device].
+
+Definition spec_conf (v : variant) (cf : conf) (id : string) (d : ddoc) : bool :=
+  let iss := k_issuer cf in
+  String.eqb (d_issuer d) iss
+  && spec_conf_eps iss (eps9_list (truth_eps v cf)) (d_endpoints d)
+  (* grant types: exactly what the configuration enables *)
+  && mem_iff s_refresh (d_grants d) (k_refresh cf) && mem_iff s_cc (d_grants d) (k_cc cf)
+  && mem_iff s_te (d_grants d) (k_te cf) && mem_iff s_bearer (d_grants d) (k_bearer cf)
+  && mem_iff s_device (d_grants d) (k_dev cf) && only known_grants (d_grants d)
+  (* PKCE methods and request-object support: advertised iff the configuration enables them *)
+  && mem_iff "S256" (d_pkce d) (k_s256 cf) && only ["S256"] (d_pkce d)
+  && Bool.eqb (d_reqparam d) (k_reqobj cf)
+  (* the login callback of a path endpoint: issuer-relative address of the callback route + the request id *)
+  && match n_auth (truth_eps v cf) with
+     | EpPath p => String.eqb (d_callback d) (absolute iss p ++ "/callback?id=" ++ id)%string
+     | _ => true
+     end.
+
 Definition spec (i : input) (o : observed) : bool :=
   match i, o with
   | IDoc r c q probes, ODoc ok iss adv routed fetched tok =>
@@ -226,6 +284,7 @@ Definition spec (i : input) (o : observed) : bool :=
       && String.eqb iss (issuer_of c q)       (* the issuer the strategy derives from THIS request *)
       && Nat.eqb (List.length results) (List.length fls)
       && forallb (spec_flow iss) results
+  | IConf v cf id, OConf d => spec_conf v cf id d
   | _, _ => false
   end.
 
@@ -249,6 +308,7 @@ Definition obs_eqb (a b : observed) : bool :=
   | ODiscover a1, ODiscover a2 => Bool.eqb a1 a2
   | ORoFlow a1 b1 r1, ORoFlow a2 b2 r2 => list_eqb String.eqb a1 a2 && Bool.eqb b1 b2 && option_eqb Bool.eqb r1 r2
   | OTokens k1 i1 r1, OTokens k2 i2 r2 => Bool.eqb k1 k2 && String.eqb i1 i2 && list_eqb flow_result_eqb r1 r2
+  | OConf d1, OConf d2 => ddoc_eqb d1 d2
   | OPanic, OPanic => true
   | _, _ => false
   end.
@@ -296,6 +356,11 @@ Definition path (i : input) (o : observed) : nat :=
       | 0 => 0
       | n => 80 + n + 12 * strategy_class c + 36 * (if jwt then 1 else 0)
       end
+  | IConf v cf id, OConf _ =>
+      (* which builder, and the flags the leak / exactness clauses turn on *)
+      let b (x : bool) := if x then 1 else 0 in
+      200 + (match v with V1 => 0 | V2 _ => 1 end) + 2 * b (k_pkjwt cf) + 4 * b (k_ipk cf) + 8 * b (k_rpk cf)
+      + 16 * b (k_reqobj cf) + 32 * b (k_s256 cf)
   | _, _ => 0
   end.
 
